@@ -32,19 +32,19 @@ CFG = {
     "np64m": ("numpy", "64b", "minuit"), "pt64m": ("pytorch", "64b", "minuit"),
 }
 
-SPEC = {"channels": [
+SPEC = {"channels": [   # every constant is chosen so that it is NOT exactly representable in float32 (a stale 32b tensor is then visible at 64b)
     {"name": "zc", "samples": [
-        {"name": "sig", "data": [5.0, 6.0], "modifiers": [{"name": "mu", "type": "normfactor", "data": None}, {"name": "lumi", "type": "lumi", "data": None},
-                                                         {"name": "st", "type": "staterror", "data": [1.0, 0.5]}]},
-        {"name": "bkg", "data": [50.0, 60.0], "modifiers": [{"name": "h", "type": "histosys", "data": {"lo_data": [45.0, 58.0], "hi_data": [56.0, 63.0]}},
+        {"name": "sig", "data": [5.3, 6.7], "modifiers": [{"name": "mu", "type": "normfactor", "data": None}, {"name": "lumi", "type": "lumi", "data": None},
+                                                         {"name": "st", "type": "staterror", "data": [1.1, 0.53]}]},
+        {"name": "bkg", "data": [50.3, 60.9], "modifiers": [{"name": "h", "type": "histosys", "data": {"lo_data": [45.7, 58.1], "hi_data": [56.3, 63.9]}},
                                                            {"name": "n", "type": "normsys", "data": {"lo": 0.9, "hi": 1.1}},
-                                                           {"name": "st", "type": "staterror", "data": [3.0, 4.0]}, {"name": "ss", "type": "shapesys", "data": [5.0, 6.0]}]}]},
+                                                           {"name": "st", "type": "staterror", "data": [3.3, 4.7]}, {"name": "ss", "type": "shapesys", "data": [5.3, 6.1]}]}]},
     {"name": "ab", "samples": [
-        {"name": "bkg", "data": [30.0, 20.0, 10.0], "modifiers": [{"name": "n", "type": "normsys", "data": {"lo": 0.95, "hi": 1.07}}, {"name": "sf", "type": "shapefactor", "data": None}]}]}],
+        {"name": "bkg", "data": [30.7, 20.3, 10.9], "modifiers": [{"name": "n", "type": "normsys", "data": {"lo": 0.95, "hi": 1.07}}, {"name": "sf", "type": "shapefactor", "data": None}]}]}],
     "parameters": [{"name": "lumi", "auxdata": [1.1], "sigmas": [0.02], "bounds": [[0.5, 1.5]], "inits": [1.1]}]}
 PARS = np.array([0.3, 1.07, 1.3, -0.6, 0.7, 1.4, 2.2, 1.1, 0.8, 0.9, 1.2])
-DATA = np.array([52.0, 70.0, 33.0, 18.5, 0.0] + [0.3, 1.13, -0.2, 90.0, 110.0, 1.05, 0.97])
-HS = [[[[8.0, 9.0, 0.5], [10.0, 10.0, 1.0], [13.0, 11.5, 2.5]]], [[[13.0, 2.0, 1.2], [10.0, 3.0, 1.0], [8.0, 3.5, 0.7]]]]
+DATA = np.array([52.0, 70.0, 33.0, 18.5, 0.0] + [0.3, 1.13, -0.2, 90.3, 98.7, 1.05, 0.97])
+HS = [[[[8.1, 9.3, 0.53], [10.1, 10.7, 1.1], [13.3, 11.9, 2.3]]], [[[13.1, 2.3, 1.2], [10.3, 3.1, 1.1], [8.7, 3.3, 0.7]]]]
 AL = np.array([[-1.7, -1.0, 0.0, 0.45, 1.0, 2.2], [1.3, -0.6, 1.0, -2.5, 0.0, 0.2]])
 
 
